@@ -325,6 +325,10 @@ func (o *FilterOptimizer) optimizePrefixMatchExpr(e *BinaryOpExpr) *ScanType {
 	// Is Key prefix scan value and value can calculate in query,
 	// return PREFIX scan
 	if field == KeyKW && key != nil {
+		if len(key) == 0 {
+			// key ^= '' holds for every key, it means full scan
+			return &ScanType{FULL, nil}
+		}
 		return &ScanType{PREFIX, [][]byte{key}}
 	}
 	// If not just return FULL scan
@@ -605,6 +609,10 @@ func (o *FilterOptimizer) unionPrefix(l, r *ScanType) *ScanType {
 }
 
 func inRange(start, end, val []byte, isEnd bool) bool {
+	if start == nil && end == nil {
+		// unbounded on both sides
+		return true
+	}
 	if start == nil && end != nil {
 		if val == nil && !isEnd {
 			return true
